@@ -20,6 +20,17 @@ def _skip_findall(eng, args, kw, env, pc, node):
     return out
 
 
+def _skip_search(eng, args, kw, env, pc, node):
+    """re.search(<a pattern naming skip_file>, text): truthy iff the text carries a skip-file comment (uninterpreted predicate)"""
+    from pyvc.engine import Undecided
+    from pyvc.values import VOpt
+    pat, s = args
+    if not isinstance(pat, VStr) or pat.lit is None or "skip_file" not in pat.lit or "pyrefact" not in pat.lit:
+        raise Undecided(f"re.search with pattern {getattr(pat, 'lit', None)!r}")
+    eng.assumptions.add("the skip_file regular expression is an uninterpreted predicate on the text (re.search is not None iff it occurs)")
+    return VOpt(z3.Not(skipmark(s.t)), VBool(z3.BoolVal(True)))       # a Match object is always truthy
+
+
 def g_skip(eng, args, kw, env, pc, node):
     return VBool(skipmark(args[0].t))
 
@@ -36,7 +47,7 @@ format_code_skip = Unit(
     params={"source": "str"}, returns="str",
     ensures=[("skip-file-returns-input-unchanged", "implies(skips(old(source)), defined('result') and result == old(source))"),
              ("source-not-modified-before-the-test", "source == old(source)")],
-    calls={"re.findall": _skip_findall}, ghost={"skips": g_skip}, props=("C20", "C04"),
+    calls={"re.findall": _skip_findall, "re.search": _skip_search}, ghost={"skips": g_skip}, props=("C20", "C04"),
     post_hook=None,
 )
 format_code_skip.key_suffix = "skip-file"
